@@ -192,59 +192,6 @@ Proof.
   - destruct A as [(rM & -> & HR)|(s & c & _ & _ & _ & Hb & _)]; [exact HR|congruence].
 Qed.
 
-(* (1) the chunked run (suspended at most once here) against the run that has both chunks at once *)
-Lemma run_merge : forall n p C M b rC, csim b C M -> b <> [] -> b_eof C = false ->
-  run_from false n p C = rC -> rC <> RFault FFuel ->
-  match rC with
-  | RMore C' => forall n2 r2, retrieve_f n2 false (attach C' b) = r2 -> r2 <> RFault FFuel ->
-                  exists m rM, run_from false m p M = rM /\ rsim [] r2 rM
-  | _ => exists m rM, run_from false m p M = rM /\ rsim b rC rM
-  end.
-Proof.
-  induction n as [|n IH]; intros p C M b rC HS Hb Heof HC HF; [cbn in HC; congruence|].
-  rewrite run_from_S, onestep_false in HC.
-  pose proof (after_csim b (sstep p (s_core C)) C M HS (fun _ => Heof)) as A.
-  pose proof (after_eof (sstep p (s_core C)) C) as E.
-  assert (Hcore : s_core C = s_core M) by (destruct HS; assumption).
-  destruct (after (sstep p (s_core C)) C) as [p' C'|rC0] eqn:EA; cbn [cont] in HC.
-  - destruct A as (M' & AM & HS').
-    specialize (IH p' C' M' b rC HS' Hb ltac:(congruence) HC HF).
-    destruct rC as [C''| | |].
-    + intros n2 r2 H2 HF2. destruct (IH n2 r2 H2 HF2) as (m & rM & Hm & Hr).
-      exists (S m), rM. split; [|exact Hr]. rewrite run_from_S, onestep_false, <- Hcore, AM. exact Hm.
-    + destruct IH as (m & rM & Hm & Hr). exists (S m), rM. split; [|exact Hr].
-      rewrite run_from_S, onestep_false, <- Hcore, AM. exact Hm.
-    + destruct IH as (m & rM & Hm & Hr). exists (S m), rM. split; [|exact Hr].
-      rewrite run_from_S, onestep_false, <- Hcore, AM. exact Hm.
-    + destruct IH as (m & rM & Hm & Hr). exists (S m), rM. split; [|exact Hr].
-      rewrite run_from_S, onestep_false, <- Hcore, AM. exact Hm.
-  - subst rC0. destruct A as [(rM & AM & HR)|(s & c & Er & Ew & EC & _ & ->)].
-    + assert (G : exists m rM', run_from false m p M = rM' /\ rsim b rC rM').
-      { exists 1%nat, rM. split; [|exact HR]. rewrite run_from_S, onestep_false, <- Hcore, AM. reflexivity. }
-      destruct rC; try exact G.
-      destruct rM; cbn in HR; tauto.
-    + (* C is suspended, M goes on *)
-      intros n2 r2 H2 HF2. destruct HS as (_ & Hn & He). rewrite EC in Hn. cbn [app] in Hn.
-      destruct b as [|y b']; [congruence|].
-      unfold retrieve_f in H2.
-      cbn [restore attach with_next with_core with_state save s_state s_core b_data b_live b_buff d_block_size] in H2.
-      rewrite state_no_not_init, site_of_state_no in H2.
-      cbn [b_data b_live b_buff d_block_size s_core b_eof] in H2.
-      rewrite !restore_save_core in H2. rewrite Ew in H2.
-      destruct (load c y) as [c'|f] eqn:EL.
-      * (* both go on from the same core *)
-        match type of H2 with run_from false n2 ?pp ?X = _ =>
-          pose proof (run_eq n2 pp X (with_next (with_core (with_core M c) c') b')) as RE end.
-        exists (S n2). eexists. split.
-        -- rewrite run_from_S, onestep_false, <- Hcore, Er. cbn [after]. unfold need_at.
-           cbn [s_core with_core l_next]. rewrite Ew, Hn, EL. cbn [cont]. reflexivity.
-        -- rewrite <- H2. apply RE. repeat split; cbn; auto. rewrite app_nil_r. reflexivity.
-      * exists 1%nat. eexists. split.
-        -- rewrite run_from_S, onestep_false, <- Hcore, Er. cbn [after]. unfold need_at.
-           cbn [s_core with_core l_next]. rewrite Ew, Hn, EL. cbn [cont]. reflexivity.
-        -- subst r2. cbn. reflexivity.
-Qed.
-
 (* ---- one call ------------------------------------------------------------------------------------------------- *)
 Inductive ent := EGo (p : pc) (st : rstate) | EStop (r : cres).
 
@@ -284,6 +231,70 @@ Proof.
     destruct (load (s_core (restore (restore st))) n0); reflexivity.
 Qed.
 
+Ltac rs_simpl := cbn [s_core l_next s_state b_live b_buff b_data b_eof d_block_size with_core with_next with_state save restore attach attach_eof
+                      c_v c_w c_ttp set_c_v set_c_w set_c_ttp].
+
+(* resuming where NEED(s) suspended *)
+Lemma resume_enter C c s y b' : (c_w c <? 32) = true ->
+  enter (attach (with_state (save (with_core C c)) (state_no s)) (y :: b')) =
+  match load c y with
+  | XV c' => EGo (After s) (mk_rstate c' b' (state_no s) (c_w c) (c_v c) (y :: b') (b_eof C) (c_ttp c))
+  | XF f => EStop (RFault f)
+  end.
+Proof.
+  intro Ew. unfold enter. rs_simpl. rewrite state_no_not_init, site_of_state_no. rs_simpl.
+  rewrite !restore_save_core. rewrite Ew. destruct (load c y); reflexivity.
+Qed.
+
+(* (1) the chunked run (suspended at most once here) against the run that has both chunks at once *)
+Lemma run_merge : forall n p C M b rC, csim b C M -> b <> [] -> b_eof C = false ->
+  run_from false n p C = rC -> rC <> RFault FFuel ->
+  match rC with
+  | RMore C' => forall n2 r2, retrieve_f n2 false (attach C' b) = r2 -> r2 <> RFault FFuel ->
+                  exists m rM, run_from false m p M = rM /\ rsim [] r2 rM
+  | _ => exists m rM, run_from false m p M = rM /\ rsim b rC rM
+  end.
+Proof.
+  induction n as [|n IH]; intros p C M b rC HS Hb Heof HC HF; [cbn in HC; congruence|].
+  rewrite run_from_S, onestep_false in HC.
+  pose proof (after_csim b (sstep p (s_core C)) C M HS (fun _ => Heof)) as A.
+  pose proof (after_eof (sstep p (s_core C)) C) as E.
+  assert (Hcore : s_core C = s_core M) by (destruct HS; assumption).
+  destruct (after (sstep p (s_core C)) C) as [p' C'|rC0] eqn:EA; cbn [cont] in HC.
+  - destruct A as (M' & AM & HS').
+    specialize (IH p' C' M' b rC HS' Hb ltac:(congruence) HC HF).
+    destruct rC as [C''| | |].
+    + intros n2 r2 H2 HF2. destruct (IH n2 r2 H2 HF2) as (m & rM & Hm & Hr).
+      exists (S m), rM. split; [|exact Hr]. rewrite run_from_S, onestep_false, <- Hcore, AM. exact Hm.
+    + destruct IH as (m & rM & Hm & Hr). exists (S m), rM. split; [|exact Hr].
+      rewrite run_from_S, onestep_false, <- Hcore, AM. exact Hm.
+    + destruct IH as (m & rM & Hm & Hr). exists (S m), rM. split; [|exact Hr].
+      rewrite run_from_S, onestep_false, <- Hcore, AM. exact Hm.
+    + destruct IH as (m & rM & Hm & Hr). exists (S m), rM. split; [|exact Hr].
+      rewrite run_from_S, onestep_false, <- Hcore, AM. exact Hm.
+  - subst rC0. destruct A as [(rM & AM & HR)|(s & c & Er & Ew & EC & _ & ->)].
+    + assert (G : exists m rM', run_from false m p M = rM' /\ rsim b rC rM').
+      { exists 1%nat, rM. split; [|exact HR]. rewrite run_from_S, onestep_false, <- Hcore, AM. reflexivity. }
+      destruct rC; try exact G.
+      destruct rM; cbn in HR; tauto.
+    + (* C is suspended, M goes on *)
+      intros n2 r2 H2 HF2. destruct HS as (_ & Hn & He). rewrite EC in Hn. cbn [app] in Hn.
+      destruct b as [|y b']; [congruence|].
+      rewrite retrieve_f_enter, (resume_enter C c s y b' Ew) in H2.
+      destruct (load c y) as [c'|f] eqn:EL.
+      * (* both go on from the same core *)
+        match type of H2 with run_from false n2 ?pp ?X = _ =>
+          pose proof (run_eq n2 pp X (with_next (with_core (with_core M c) c') b')) as RE end.
+        exists (S n2). eexists. split.
+        -- rewrite run_from_S, onestep_false, <- Hcore, Er. cbn [after]. unfold need_at.
+           cbn [s_core with_core l_next]. rewrite Ew, Hn, EL. cbn [cont]. reflexivity.
+        -- rewrite <- H2. apply RE. repeat split; cbn; auto. rewrite app_nil_r. reflexivity.
+      * exists 1%nat. eexists. split.
+        -- rewrite run_from_S, onestep_false, <- Hcore, Er. cbn [after]. unfold need_at.
+           cbn [s_core with_core l_next]. rewrite Ew, Hn, EL. cbn [cont]. reflexivity.
+        -- subst r2. cbn. reflexivity.
+Qed.
+
 Lemma enter_merge st a b : a <> [] ->
   match enter (attach st a) with
   | EGo p C => exists M, enter (attach st (a ++ b)) = EGo p M /\ csim b C M /\ b_eof C = b_eof st
@@ -291,7 +302,7 @@ Lemma enter_merge st a b : a <> [] ->
   end.
 Proof.
   intro Ha. destruct a as [|x a']; [congruence|]. destruct st as [c nx s bl bb d e bs].
-  unfold enter, restore, attach, need_at, with_next, with_core, csim. cbn.
+  unfold enter, need_at, csim. rs_simpl. cbn [app].
   destruct (s =? S_INIT).
   - destruct (bl <? 32).
     + match goal with |- context [load ?c x] => destruct (load c x) as [c'|f] end; [|reflexivity].
@@ -413,15 +424,12 @@ Inductive Eval (b : bool) : rstate -> list (list N) -> cres * list (list N) -> P
 
 Lemma Eval_det b st cs x : Eval b st cs x -> forall y, Eval b st cs y -> x = y.
 Proof.
-  induction 1 as [st r H Hm|st st' r H H'|st ch rest r H Hm|st ch rest st' x H E IH]; intros y Hy; inversion Hy; subst.
-  - f_equal. eapply Ret_det; eassumption.
-  - pose proof (Ret_det _ _ _ _ H H2). subst. discriminate.
-  - pose proof (Ret_det _ _ _ _ H H3). subst. discriminate.
-  - pose proof (Ret_det _ _ _ _ H H3) as X. injection X as <-. f_equal. eapply Ret_det; eassumption.
-  - f_equal. eapply Ret_det; eassumption.
-  - pose proof (Ret_det _ _ _ _ H H5). subst. discriminate.
-  - pose proof (Ret_det _ _ _ _ H H4). subst. discriminate.
-  - pose proof (Ret_det _ _ _ _ H H4) as X. injection X as <-. apply IH. assumption.
+  induction 1 as [st r H Hm|st st' r H H'|st ch rest r H Hm|st ch rest st' x H E IH]; intros y Hy; inversion Hy; subst;
+    repeat match goal with
+    | H1 : Ret ?bb ?s ?r1, H2 : Ret ?bb ?s ?r2 |- _ =>
+        let X := fresh "X" in pose proof (Ret_det _ _ _ _ H1 H2) as X; clear H2;
+        first [discriminate X | injection X as <- | subst r2 | subst r1]
+    end; try reflexivity; try discriminate; auto.
 Qed.
 
 (* the executable driver, when it does not run out of fuel, is an evaluation *)
@@ -538,3 +546,413 @@ Proof.
       rewrite Hc in Ey1. rewrite (Eval_det _ _ _ _ Ey1 _ Ey2) in S1.
       eapply xsim_trans; [exact S1|apply xsim_sym; exact S2].
 Qed.
+
+(* ================================================================================================================ *)
+(* (2) fast path = slow path                                                                                       *)
+(* ================================================================================================================ *)
+Ltac rec_simpl := cbn [c_v c_w c_ttp c_tt d_rand d_bwt_idx d_ftab r_selector r_num_trees r_num_selectors r_alpha_size
+                       r_code_len r_mtf r_tree r_big r_small r_j r_t r_g r_slide r_runChar r_run r_shift
+                       set_c_v set_c_w set_c_ttp set_c_tt set_d_rand set_d_bwt_idx set_d_ftab set_r_selector set_r_num_trees
+                       set_r_num_selectors set_r_alpha_size set_r_code_len set_r_mtf set_r_tree set_r_big set_r_small set_r_j
+                       set_r_t set_r_g set_r_slide set_r_runChar set_r_run set_r_shift].
+
+Ltac dcore c := destruct c as [?xv ?xw ?xttp ?xtt ?xrand ?xidx ?xftab ?xsel ?xnt ?xns ?xasz ?xcl ?xmtf ?xtree ?xbig ?xsmall ?xj ?xt ?xg ?xslide ?xrc ?xrun ?xsh].
+
+(* the state of the slow path that corresponds to the fast path's locals run, runChar, shift, j *)
+Definition cS (c : core) (run rc sh j : N) : core := set_r_j (set_r_shift (set_r_runChar (set_r_run c run) rc) sh) j.
+
+Lemma cS_vw c run rc sh j v w : set_c_w (set_c_v (cS c run rc sh j) v) w = cS (set_c_w (set_c_v c v) w) run rc sh j.
+Proof. destruct c; reflexivity. Qed.
+Lemma cS_acc c run rc sh j run' sh' j' : set_r_j (set_r_shift (set_r_run (cS c run rc sh j) run') sh') j' = cS c run' rc sh' j'.
+Proof. destruct c; reflexivity. Qed.
+Lemma cS_sym c run rc sh j u sl x j' :
+  set_r_j (set_r_run (set_r_shift (set_r_runChar (set_r_slide (set_r_run (cS c run rc sh j) u) sl) x) 0) 1) j' = cS (set_r_slide c sl) 1 x 0 j'.
+Proof. destruct c; reflexivity. Qed.
+Lemma cS_self c : cS c (r_run c) (r_runChar c) (r_shift c) (r_j c) = c.
+Proof. destruct c; reflexivity. Qed.
+Lemma cS_j c run rc sh j j' : set_r_j (cS c run rc sh j) j' = cS c run rc sh j'.
+Proof. destruct c; reflexivity. Qed.
+Lemma cS_g c run rc sh j g : set_r_g (cS c run rc sh j) g = cS (set_r_g c g) run rc sh j.
+Proof. destruct c; reflexivity. Qed.
+
+Definition mapX {A B} (f : A -> B) (x : X A) : X B := match x with XV a => XV (f a) | XF e => XF e end.
+
+Lemma load_cS c run rc sh j x : load (cS c run rc sh j) x = mapX (fun c' => cS c' run rc sh j) (load c x).
+Proof. unfold load. destruct c. cbn. destruct (shl64 _ _); reflexivity. Qed.
+
+Lemma tt_push_cS ch run rc sh j (xc : X core) :
+  tt_push ch (mapX (fun c' => cS c' run rc sh j) xc) = mapX (fun c' => cS c' run rc sh j) (tt_push ch xc).
+Proof. destruct xc as [c|f]; [|reflexivity]. destruct c. cbn. destruct (_ <? _); reflexivity. Qed.
+
+Lemma iter_push_cS ch run rc sh j n (xc : X core) :
+  N.iter n (tt_push ch) (mapX (fun c' => cS c' run rc sh j) xc) = mapX (fun c' => cS c' run rc sh j) (N.iter n (tt_push ch) xc).
+Proof.
+  induction n as [|n IH] using N.peano_ind; [reflexivity|].
+  rewrite !N.iter_succ, IH. apply tt_push_cS.
+Qed.
+
+Lemma emit_run_cS c run rc sh j a b : emit_run (cS c run rc sh j) a b = mapX (fun c' => cS c' run rc sh j) (emit_run c a b).
+Proof.
+  unfold emit_run. replace (d_ftab (cS c run rc sh j)) with (d_ftab c) by (destruct c; reflexivity).
+  destruct (xget RFtab (d_ftab c) a) as [f|e]; [|reflexivity]. cbn [bindX].
+  destruct (xset RFtab (d_ftab c) a (add32 f b)) as [ft|e]; [|reflexivity]. cbn [bindX].
+  replace (set_d_ftab (cS c run rc sh j) ft) with (cS (set_d_ftab c ft) run rc sh j) by (destruct c; reflexivity).
+  apply (iter_push_cS a run rc sh j b (XV (set_d_ftab c ft))).
+Qed.
+
+(* results that end the call: same code, or end of block with the same observable core *)
+Definition bfin (r1 r2 : bres) : Prop :=
+  match r1, r2 with
+  | BRet c1 _, BRet c2 _ => c1 = c2
+  | BEob c1, BEob c2 => obs_core c1 = obs_core c2
+  | BFault f1, BFault f2 => f1 = f2
+  | _, _ => False
+  end.
+
+Lemma bfin_after r1 r2 st m1 m2 : bfin r1 r2 -> rsim [] (cont false m1 (after r1 st)) (cont false m2 (after r2 st)).
+Proof.
+  destruct r1, r2; cbn [bfin]; try tauto; intro H; cbn [after cont].
+  unfold finish. cbn [save with_core s_core d_block_size].
+  unfold obs_core in H. injection H as Hv Hw Hp Ht Hr Hi Hf.
+  rewrite Hp, Hi. destruct (c_ttp c0 =? 0); [cbn; reflexivity|].
+  destruct (c_ttp c0 <=? d_bwt_idx c0); [cbn; reflexivity|].
+  cbn. unfold obs_core. rewrite Hv, Hw, Hp, Ht, Hr, Hi, Hf, app_nil_r. auto.
+Qed.
+
+Lemma eob_cS c run rc sh j : bfin (eob (cS c run rc sh j)) (eob (set_r_runChar (set_r_run c run) rc)).
+Proof.
+  unfold eob.
+  replace (overflows (cS c run rc sh j) (r_run (cS c run rc sh j))) with (overflows (set_r_runChar (set_r_run c run) rc) run)
+    by (destruct c; reflexivity).
+  replace (r_run (set_r_runChar (set_r_run c run) rc)) with run by (destruct c; reflexivity).
+  destruct (overflows _ run); [cbn; reflexivity|].
+  replace (r_runChar (cS c run rc sh j)) with rc by (destruct c; reflexivity).
+  replace (r_run (cS c run rc sh j)) with run by (destruct c; reflexivity).
+  replace (r_runChar (set_r_runChar (set_r_run c run) rc)) with rc by (destruct c; reflexivity).
+  replace (cS c run rc sh j) with (cS (set_r_runChar (set_r_run c run) rc) run rc sh j) by (destruct c; reflexivity).
+  rewrite emit_run_cS. destruct (emit_run (set_r_runChar (set_r_run c run) rc) rc run) as [c'|f]; cbn; [|reflexivity].
+  destruct c'; reflexivity.
+Qed.
+
+Lemma guard_eq r : run_guard 0 r = run_guard 1 r.
+Proof. reflexivity. Qed.
+
+Lemma after_with_core r st c : after r (with_core st c) = after r st.
+Proof. destruct r, st; reflexivity. Qed.
+
+(* the group head does not depend on rs->j *)
+Definition gmap (f : core -> core) (g : gsel) : gsel :=
+  match g with
+  | GSel c => GSel (f c)
+  | GOut (BRet t c) => GOut (BRet t (f c))
+  | GOut r => GOut r
+  end.
+
+Lemma group_select_j c x : group_select (set_r_j c x) = gmap (fun c' => set_r_j c' x) (group_select c).
+Proof.
+  unfold group_select. dcore c. rec_simpl.
+  destruct (_ <? _); [|reflexivity].
+  destruct (xget RSelector _ _) as [i|f]; [|reflexivity].
+  destruct (xget RMtf _ i) as [t|f]; [|reflexivity].
+  destruct (MAX_TREES <=? t); [reflexivity|].
+  destruct (bindX _ _) as [m|f]; reflexivity.
+Qed.
+
+Lemma group_j_indep : forall n st x,
+  rsim [] (run_from false n P_GROUP (with_core st (set_r_j (s_core st) x))) (run_from false n P_GROUP st).
+Proof.
+  intros [|n] st x; [cbn; reflexivity|].
+  rewrite !run_from_S, !onestep_false. cbn [s_core with_core]. rewrite after_with_core.
+  unfold sstep. cbn [step fst]. unfold group_head.
+  rewrite group_select_j. destruct (group_select (s_core st)) as [c|r]; cbn [gmap andb fst].
+  - replace (set_r_j (set_r_j c x) 0) with (set_r_j c 0) by (dcore c; reflexivity). apply rsim_refl.
+  - destruct r; cbn; try reflexivity; auto using rsim_refl.
+Qed.
+
+Lemma with_core_twice st c1 c2 : with_core (with_core st c1) c2 = with_core st c2.
+Proof. destruct st; reflexivity. Qed.
+Lemma with_next_core st nx c : with_next (with_core st c) nx = with_core (with_next st nx) c.
+Proof. destruct st; reflexivity. Qed.
+Lemma add32_small' a b : a + b < 2 ^ 32 -> add32 a b = a + b.
+Proof. intro H. unfold add32. apply N.mod_small. exact H. Qed.
+
+Lemma cS_proj c run rc sh j :
+  c_v (cS c run rc sh j) = c_v c /\ c_w (cS c run rc sh j) = c_w c /\ r_tree (cS c run rc sh j) = r_tree c /\
+  r_t (cS c run rc sh j) = r_t c /\ r_alpha_size (cS c run rc sh j) = r_alpha_size c /\
+  r_run (cS c run rc sh j) = run /\ r_runChar (cS c run rc sh j) = rc /\ r_shift (cS c run rc sh j) = sh /\
+  r_j (cS c run rc sh j) = j /\ r_slide (cS c run rc sh j) = r_slide c /\ r_g (cS c run rc sh j) = r_g c /\
+  c_ttp (cS c run rc sh j) = c_ttp c.
+Proof. dcore c. repeat split; reflexivity. Qed.
+
+(* emit_run only touches ftab[], tt[] and the tt pointer *)
+Definition tt_frame (c c' : core) : Prop := c' = set_c_ttp (set_c_tt (set_d_ftab c (d_ftab c')) (c_tt c')) (c_ttp c').
+
+Lemma tt_frame_refl c : tt_frame c c.
+Proof. unfold tt_frame. dcore c. reflexivity. Qed.
+
+Lemma tt_frame_trans a b c : tt_frame a b -> tt_frame b c -> tt_frame a c.
+Proof. unfold tt_frame. intros H1 H2. rewrite H2. rewrite H1. dcore a. dcore c. reflexivity. Qed.
+
+Lemma iter_push_frame ch : forall n xc c', N.iter n (tt_push ch) xc = XV c' -> exists c0, xc = XV c0 /\ tt_frame c0 c'.
+Proof.
+  induction n as [|n IH] using N.peano_ind; intros xc c' H.
+  - cbn in H. exists c'. split; [exact H|apply tt_frame_refl].
+  - rewrite N.iter_succ in H. unfold tt_push at 1 in H.
+    destruct (N.iter n (tt_push ch) xc) as [c1|f] eqn:E; cbn [bindX] in H; [|discriminate].
+    destruct (c_ttp c1 <? MAX_BLOCK_SIZE); [|discriminate]. injection H as <-.
+    destruct (IH xc c1 E) as (c0 & -> & F). exists c0. split; [reflexivity|].
+    eapply tt_frame_trans; [exact F|]. unfold tt_frame. dcore c1. reflexivity.
+Qed.
+
+Lemma emit_run_frame c a b c' : emit_run c a b = XV c' -> tt_frame c c'.
+Proof.
+  unfold emit_run. destruct (xget RFtab (d_ftab c) a) as [f|e]; [|discriminate]. cbn [bindX].
+  destruct (xset RFtab (d_ftab c) a (add32 f b)) as [ft|e]; [|discriminate]. cbn [bindX].
+  intro H. destruct (iter_push_frame a b _ c' H) as (c0 & E & F). injection E as <-.
+  eapply tt_frame_trans; [|exact F]. unfold tt_frame. dcore c. reflexivity.
+Qed.
+
+Lemma tt_frame_fields c c' : tt_frame c c' ->
+  r_tree c' = r_tree c /\ r_t c' = r_t c /\ r_slide c' = r_slide c /\ c_v c' = c_v c /\ c_w c' = c_w c.
+Proof. unfold tt_frame. intros ->. dcore c. repeat split; reflexivity. Qed.
+
+Definition fast_body (n' : nat) (T : tree) (c : core) (next : list N) (run runChar shift : N) : bres * list N :=
+        match ofM (tree_decode (r_alpha_size c) T (c_v c)) with
+        | XF f => (BFault f, next)
+        | XV skv =>
+          let s := fst (fst skv) in let k := snd (fst skv) in
+          let c := set_c_w (set_c_v c (snd skv)) (sub32 (c_w c) k) in
+          if s =? EOB then (eob (set_r_runChar (set_r_run c run) runChar), next)
+          else if (256 <=? s) && run_guard 0 run then
+            match ofM (shl32 (sub32 s 256) shift) with
+            | XF f => (BFault f, next)
+            | XV sh => fast_loop n' T c next (add32 run sh) runChar (add32 shift 1)
+            end
+          else if overflows c run then (BRet E_ERR_OVERFLOW c, next)
+          else
+            match emit_run c runChar run with
+            | XF f => (BFault f, next)
+            | XV c =>
+              match SlideModel.mtf_one_c (s mod W8) (r_slide c) with
+              | SlideModel.Oob => (BFault FSlideOob, next)
+              | SlideModel.Abort => (BFault FSlideAbort, next)
+              | SlideModel.Done x sl => fast_loop n' T (set_r_slide c sl) next 1 x 0
+              end
+            end
+        end.
+
+Lemma fast_loop_S n' T c next run rc sh :
+  fast_loop (S n') T c next run rc sh =
+  match need_fast c next with
+  | XF f => (BFault f, next)
+  | XV (c1, nx1) => fast_body n' T c1 nx1 run rc sh
+  end.
+Proof. reflexivity. Qed.
+
+(* one symbol: the slow path's step against the fast path's loop body *)
+Lemma sym_corr n' T c next run rc sh j : j < 50 ->
+  nth_error (r_tree c) (N.to_nat (r_t c)) = Some T ->
+  (exists c' run' rc' sh',
+     fast_body n' T c next run rc sh = fast_loop n' T c' next run' rc' sh' /\
+     after_prefix (cS c run rc sh j) = slow_head (cS c' run' rc' sh' (j + 1)) /\
+     r_tree c' = r_tree c /\ r_t c' = r_t c) \/
+  (snd (fast_body n' T c next run rc sh) = next /\ bfin (after_prefix (cS c run rc sh j)) (fst (fast_body n' T c next run rc sh))).
+Proof.
+  intros Hj HT.
+  destruct (cS_proj c run rc sh j) as (Ev & Ew & Et & Ett & Ea & Er & Erc & Es & Ej & Esl & Eg & Ep).
+  unfold after_prefix, fast_body. rewrite Et, Ett, HT, Ea, Ev, Ew. cbn [ofO bindB].
+  destruct (ofM (tree_decode (r_alpha_size c) T (c_v c))) as [skv|f]; cbn [bindB]; [|right; split; reflexivity].
+  set (s := fst (fst skv)). set (k := snd (fst skv)).
+  rewrite cS_vw. set (c2 := set_c_w (set_c_v c (snd skv)) (sub32 (c_w c) k)).
+  assert (Hc2 : r_tree c2 = r_tree c /\ r_t c2 = r_t c) by (subst c2; dcore c; split; reflexivity).
+  clearbody c2.
+  destruct (cS_proj c2 run rc sh j) as (Ev2 & Ew2 & Et2 & Ett2 & Ea2 & Er2 & Erc2 & Es2 & Ej2 & Esl2 & Eg2 & Ep2).
+  destruct (s =? EOB).
+  { right. split; [reflexivity|]. apply eob_cS. }
+  rewrite Er2, Es2, <- guard_eq.
+  destruct ((256 <=? s) && run_guard 0 run).
+  { destruct (ofM (shl32 (sub32 s 256) sh)) as [x|f]; cbn [bindB]; [|right; split; reflexivity].
+    left. exists c2, (add32 run x), rc, (add32 sh 1). split; [reflexivity|]. split.
+    - match goal with |- context [add32 (r_j ?X) 1] => replace (r_j X) with j by (dcore c2; reflexivity) end.
+      rewrite (add32_small' j 1) by lia. rewrite cS_acc. reflexivity.
+    - exact Hc2. }
+  replace (overflows (cS c2 run rc sh j) run) with (overflows c2 run) by (unfold overflows; rewrite Ep2; reflexivity).
+  destruct (overflows c2 run); [right; split; reflexivity|].
+  rewrite Erc2, emit_run_cS.
+  destruct (emit_run c2 rc run) as [c3|f] eqn:Eem; cbn [mapX bindB]; [|right; split; reflexivity].
+  replace (r_slide (set_r_run (cS c3 run rc sh j) UINT_MAX)) with (r_slide c3) by (dcore c3; reflexivity).
+  destruct (SlideModel.mtf_one_c (s mod W8) (r_slide c3)) as [x sl| |]; [|right; split; reflexivity|right; split; reflexivity].
+  left. exists (set_r_slide c3 sl), 1, x, 0. split; [reflexivity|]. split.
+  - replace (r_j (set_r_run (set_r_shift (set_r_runChar (set_r_slide (set_r_run (cS c3 run rc sh j) UINT_MAX) sl) x) 0) 1)) with j
+      by (dcore c3; reflexivity).
+    rewrite (add32_small' j 1) by lia. rewrite cS_sym. reflexivity.
+  - assert (E3 : r_tree c3 = r_tree c2 /\ r_t c3 = r_t c2).
+    { destruct (tt_frame_fields _ _ (emit_run_frame _ _ _ _ Eem)) as (A & B & _). split; assumption. }
+    destruct E3 as [E3a E3b]. destruct Hc2 as [Ha Hb]. split.
+    + replace (r_tree (set_r_slide c3 sl)) with (r_tree c3) by (dcore c3; reflexivity). congruence.
+    + replace (r_t (set_r_slide c3 sl)) with (r_t c3) by (dcore c3; reflexivity). congruence.
+Qed.
+
+Lemma need_corr c next run rc sh j st :
+  match need_fast c next with
+  | XV (c1, nx1) =>
+      need_at S_prefix (with_core (with_next st next) (cS c run rc sh j)) = NGo (with_core (with_next st nx1) (cS c1 run rc sh j)) /\
+      r_tree c1 = r_tree c /\ r_t c1 = r_t c
+  | XF f => f = FInput \/ need_at S_prefix (with_core (with_next st next) (cS c run rc sh j)) = NRet (RFault f)
+  end.
+Proof.
+  destruct (cS_proj c run rc sh j) as (Ev & Ew & _).
+  unfold need_fast, need_at. cbn [s_core with_core l_next with_next]. rewrite Ew.
+  destruct (c_w c <? 32).
+  - destruct next as [|x r]; [left; reflexivity|].
+    rewrite load_cS. destruct (load c x) as [c1|f] eqn:EL; cbn [bindX mapX].
+    + split; [destruct st; reflexivity|].
+      unfold load in EL. destruct (ofM _); [|discriminate]. cbn [bindX] in EL. injection EL as <-. dcore c. split; reflexivity.
+    + right. reflexivity.
+  - split; [destruct st; reflexivity|]. split; reflexivity.
+Qed.
+
+Lemma fast_slow_loop : forall n T c next run rc sh j st mF rF,
+  N.of_nat n + j = GROUP_SIZE ->
+  nth_error (r_tree c) (N.to_nat (r_t c)) = Some T ->
+  fst (fast_loop n T c next run rc sh) <> BFault FInput ->
+  cont false mF (after (fst (fast_loop n T c next run rc sh)) (with_next st (snd (fast_loop n T c next run rc sh)))) = rF ->
+  rF <> RFault FFuel ->
+  exists mS rS, cont false mS (after (slow_head (cS c run rc sh j)) (with_next st next)) = rS /\ rsim [] rS rF.
+Proof.
+  induction n as [|n IH]; intros T c next run rc sh j st mF rF Hj HT HI HF HN.
+  - cbn [fast_loop fst snd] in HF. change GROUP_SIZE with 50 in Hj. assert (j = 50) by lia. subst j.
+    destruct (cS_proj c run rc sh 50) as (_ & _ & _ & _ & _ & _ & _ & _ & Ej & _ & Eg & _).
+    unfold slow_head. rewrite Ej, Eg. change (50 <? GROUP_SIZE) with false. cbn iota.
+    cbn [after cont] in *.
+    set (cF := set_r_g (set_r_shift (set_r_runChar (set_r_run c run) rc) sh)
+                 (add32 (r_g (set_r_shift (set_r_runChar (set_r_run c run) rc) sh)) 1)) in *.
+    replace (set_r_g (cS c run rc sh 50) (add32 (r_g c) 1)) with (set_r_j cF 50) by (dcore c; reflexivity).
+    exists mF. eexists. split; [reflexivity|].
+    pose proof (group_j_indep mF (with_core (with_next st next) cF) 50) as G.
+    cbn [s_core with_core] in G. rewrite with_core_twice in G. rewrite <- HF. exact G.
+  - change GROUP_SIZE with 50 in Hj.
+    destruct (cS_proj c run rc sh j) as (Ev & Ew & Et & Ett & Ea & Er & Erc & Es & Ej & Esl & Eg & Ep).
+    unfold slow_head. rewrite Ej. replace (j <? GROUP_SIZE) with true by (symmetry; apply N.ltb_lt; change GROUP_SIZE with 50; lia).
+    cbn [after]. rewrite fast_loop_S in HF, HI.
+    pose proof (need_corr c next run rc sh j st) as NC.
+    destruct (need_fast c next) as [[c1 nx1]|f].
+    + destruct NC as (NC & Ht1 & Ht2). rewrite NC.
+      destruct (sym_corr n T c1 nx1 run rc sh j ltac:(lia) ltac:(congruence))
+        as [(c' & run' & rc' & sh' & EF & ES & Ht1' & Ht2')|(EN & BF)].
+      * rewrite EF in HF, HI.
+        destruct (IH T c' nx1 run' rc' sh' (j + 1) st mF rF ltac:(change GROUP_SIZE with 50; lia) ltac:(congruence) HI HF HN)
+          as (mS & rS & HS & HR).
+        exists (S mS), rS. split; [|exact HR]. cbn [cont]. rewrite run_from_S, onestep_false.
+        cbn [s_core with_core]. unfold sstep. cbn [step fst step_core]. rewrite ES, after_with_core. exact HS.
+      * rewrite EN in HF. exists 1%nat. eexists. split; [reflexivity|].
+        cbn [cont]. rewrite run_from_S, onestep_false. cbn [s_core with_core]. unfold sstep. cbn [step fst step_core].
+        rewrite after_with_core, <- HF. apply bfin_after. exact BF.
+    + cbn [fst snd] in HF, HI. destruct NC as [->|NC]; [congruence|]. rewrite NC.
+      exists 0%nat. eexists. split; [reflexivity|]. cbn [cont]. subst rF. cbn. reflexivity.
+Qed.
+
+Definition no_fault (r : cres) : Prop := forall f, r <> RFault f.
+
+Lemma rsim_no_fault b r1 r2 : rsim b r1 r2 -> no_fault r2 -> no_fault r1.
+Proof. destruct r1, r2; cbn; try tauto; intros; intros f' E; try discriminate. subst. injection E as <-. exact (H0 _ eq_refl). Qed.
+
+Lemma cS_self_j c j : cS c (r_run c) (r_runChar c) (r_shift c) j = set_r_j c j.
+Proof. dcore c. reflexivity. Qed.
+
+Lemma step_true_other p c nx : p <> P_GROUP -> step true p c nx = step false p c nx.
+Proof. destruct p; try reflexivity. congruence. Qed.
+
+(* (2) a run of the machine with the fast path that ends without a fault is matched by the slow machine *)
+Lemma fast_to_slow_run : forall n p st rF, run_from true n p st = rF -> no_fault rF ->
+  exists m rS, run_from false m p st = rS /\ rsim [] rS rF.
+Proof.
+  induction n as [|n IH]; intros p st rF H NF; [cbn in H; subst; exfalso; exact (NF _ eq_refl)|].
+  rewrite run_from_S in H.
+  assert (Hother : p <> P_GROUP -> exists m rS, run_from false m p st = rS /\ rsim [] rS rF).
+  { intro Hp. unfold onestep in H. rewrite (step_true_other p _ _ Hp) in H. fold (onestep false p st) in H.
+    destruct (onestep false p st) as [p' st'|r] eqn:E; cbn [cont] in H.
+    - destruct (IH p' st' rF H NF) as (m & rS & Hm & Hr). exists (S m), rS. split; [|exact Hr].
+      rewrite run_from_S, E. exact Hm.
+    - subst r. exists 1%nat, rF. split; [rewrite run_from_S, E; reflexivity|apply rsim_refl]. }
+  destruct p as [s| |]; try (apply Hother; discriminate). clear Hother.
+  rewrite onestep_after in H. cbn [step] in H. unfold group_head in H.
+  destruct (group_select (s_core st)) as [c1|r] eqn:EG.
+  - destruct (true && (32 <=? N.of_nat (length (l_next st)))) eqn:Efast.
+    + destruct (ofO (FRead RTree) (nth_error (r_tree c1) (N.to_nat (r_t c1)))) as [T|f] eqn:ET.
+      * set (fr := fast_loop (N.to_nat GROUP_SIZE) T c1 (l_next st) (r_run c1) (r_runChar c1) (r_shift c1)) in *.
+        assert (HT : nth_error (r_tree c1) (N.to_nat (r_t c1)) = Some T).
+        { destruct (nth_error (r_tree c1) (N.to_nat (r_t c1))); cbn in ET; congruence. }
+        assert (HI : fst fr <> BFault FInput).
+        { intro X. rewrite X in H. cbn in H. subst rF. exact (NF _ eq_refl). }
+        assert (G : exists mF rS', cont false mF (after (fst fr) (with_next st (snd fr))) = rS' /\ rsim [] rS' rF).
+        { destruct (after (fst fr) (with_next st (snd fr))) as [p' st'|r] eqn:EA; cbn [cont] in H.
+          - destruct (IH p' st' rF H NF) as (m & rS & Hm & Hr). exists m, rS. split; [exact Hm|exact Hr].
+          - subst r. exists 0%nat, rF. split; [reflexivity|apply rsim_refl]. }
+        destruct G as (mF & rS' & HF & HR').
+        assert (NF' : rS' <> RFault FFuel) by (apply (rsim_no_fault _ _ _ HR' NF)).
+        destruct (fast_slow_loop (N.to_nat GROUP_SIZE) T c1 (l_next st) (r_run c1) (r_runChar c1) (r_shift c1) 0 st mF rS'
+                    ltac:(reflexivity) HT HI HF NF') as (mS & rS & HS & HR).
+        exists (S mS), rS. split; [|eapply rsim_trans; eassumption].
+        rewrite run_from_S, onestep_false. unfold sstep. cbn [step fst]. unfold group_head. rewrite EG. cbn [andb fst].
+        rewrite cS_self_j, with_next_id in HS. exact HS.
+      * cbn [fst snd] in H. cbn in H. subst rF. exfalso. exact (NF _ eq_refl).
+    + (* slow path in both machines *)
+      cbn [fst snd] in H. rewrite with_next_id in H.
+      destruct (after (slow_head (set_r_j c1 0)) st) as [p' st'|r] eqn:EA; cbn [cont] in H.
+      * destruct (IH p' st' rF H NF) as (m & rS & Hm & Hr). exists (S m), rS. split; [|exact Hr].
+        rewrite run_from_S, onestep_false. unfold sstep. cbn [step fst]. unfold group_head. rewrite EG. cbn [andb fst].
+        rewrite EA. exact Hm.
+      * subst r. exists 1%nat, rF. split; [|apply rsim_refl].
+        rewrite run_from_S, onestep_false. unfold sstep. cbn [step fst]. unfold group_head. rewrite EG. cbn [andb fst].
+        rewrite EA. reflexivity.
+  - cbn [fst snd] in H. rewrite with_next_id in H.
+    destruct (after r st) as [p' st'|r'] eqn:EA; cbn [cont] in H.
+    + destruct (IH p' st' rF H NF) as (m & rS & Hm & Hr). exists (S m), rS. split; [|exact Hr].
+      rewrite run_from_S, onestep_false. unfold sstep. cbn [step fst]. unfold group_head. rewrite EG. cbn [fst].
+      rewrite EA. exact Hm.
+    + subst r'. exists 1%nat, rF. split; [|apply rsim_refl].
+      rewrite run_from_S, onestep_false. unfold sstep. cbn [step fst]. unfold group_head. rewrite EG. cbn [fst].
+      rewrite EA. reflexivity.
+Qed.
+
+Lemma Ret_fast_to_slow st rF : Ret true st rF -> no_fault rF -> exists rS, Ret false st rS /\ rsim [] rS rF.
+Proof.
+  intros (n & H & _) NF. rewrite retrieve_f_enter in H.
+  destruct (enter st) as [p s|r] eqn:E.
+  - destruct (fast_to_slow_run n p s rF H NF) as (m & rS & Hm & Hr).
+    exists rS. split; [|exact Hr]. exists m. rewrite retrieve_f_enter, E. split; [exact Hm|].
+    apply (rsim_no_fault _ _ _ Hr NF).
+  - subst r. exists rF. split; [|apply rsim_refl]. exists 0%nat. rewrite retrieve_f_enter, E. split; [reflexivity|apply NF].
+Qed.
+
+Lemma Eval_fast_to_slow st cs x : Eval true st cs x -> no_fault (fst x) -> exists y, Eval false st cs y /\ xsim y x.
+Proof.
+  induction 1 as [st r H Hm|st st' r H H'|st ch rest r H Hm|st ch rest st' x H E IH]; intro NF; cbn [fst] in NF.
+  - destruct (Ret_fast_to_slow _ _ H NF) as (rS & HS & HR). exists (rS, []). split; [|apply rsim_nil_xsim; exact HR].
+    apply Ev_nil_stop; [exact HS|]. rewrite (rsim_more _ _ _ HR). exact Hm.
+  - destruct (Ret_fast_to_slow _ _ H ltac:(intros f; discriminate)) as (rS & HS & HR).
+    destruct rS as [sS| | |]; cbn in HR; try tauto. destruct HR as [-> _].
+    destruct (Ret_fast_to_slow _ _ H' NF) as (rS & HS' & HR'). exists (rS, []). split; [|apply rsim_nil_xsim; exact HR'].
+    eapply Ev_nil_more; eassumption.
+  - destruct (Ret_fast_to_slow _ _ H NF) as (rS & HS & HR). exists (rS, rest). split; [|apply rsim_nil_xsim; exact HR].
+    apply Ev_stop; [exact HS|]. rewrite (rsim_more _ _ _ HR). exact Hm.
+  - destruct (Ret_fast_to_slow _ _ H ltac:(intros f; discriminate)) as (rS & HS & HR).
+    destruct rS as [sS| | |]; cbn in HR; try tauto. destruct HR as [-> _].
+    destruct (IH NF) as (y & Ey & Sy). exists y. split; [|exact Sy]. eapply Ev_more; eassumption.
+Qed.
+
+(* CHUNK INDEPENDENCE, for runs that end without a fault: the result of retrieve() fed with a list of non-empty
+   chunks (then end of input) depends only on the concatenation of the chunks *)
+Theorem chunk_indep_nofault st cs1 cs2 x1 x2 :
+  Forall (fun c => c <> []) cs1 -> Forall (fun c => c <> []) cs2 -> concat cs1 = concat cs2 -> b_eof st = false ->
+  Eval true st cs1 x1 -> Eval true st cs2 x2 -> no_fault (fst x1) -> no_fault (fst x2) -> xsim x1 x2.
+Proof.
+  intros H1 H2 Hc He E1 E2 N1 N2.
+  destruct (Eval_fast_to_slow _ _ _ E1 N1) as (y1 & Ey1 & S1).
+  destruct (Eval_fast_to_slow _ _ _ E2 N2) as (y2 & Ey2 & S2).
+  pose proof (slow_chunk_indep st cs1 cs2 y1 y2 H1 H2 Hc He Ey1 Ey2) as S.
+  eapply xsim_trans; [apply xsim_sym; exact S1|]. eapply xsim_trans; [exact S|exact S2].
+Qed.
+
+Print Assumptions chunk_indep_nofault.
